@@ -148,6 +148,16 @@ func runC14(pl *plan.Plan, out *plan.Outcome) {
 			firstCloseRet = ret
 		}
 		env.mu.Unlock()
+		if env.Sim != nil {
+			// "stops all background work": the moment any Close call has returned, the exporter's own
+			// goroutines must be gone. Under the scheduler every other goroutine is parked or blocked
+			// right now, so the census is exact.
+			if left := census(func(g string) bool {
+				return strings.Contains(g, "go-ipfix/pkg/exporter.InitExportingProcess.func")
+			}); len(left) > 0 {
+				env.Violate("close-returned-with-background-work", "", "CloseConnToCollector returned while %d background goroutines of the exporter are still alive, e.g. %s", len(left), oneLineStack(left[0]))
+			}
+		}
 	}
 	var leftover []string
 	env.Go("app", func() {
